@@ -130,7 +130,11 @@ Keys == {"", "*this", "k", "index"}
 Bodies(it, ix) == { <<Text(<<P(Id(it))>>)>>, <<Text(<<P(Id(ix)), S(":"), P(Id(it))>>)>>,
                     <<Elem("v", <<Attr("plain", "p", EV(Id(it))), Attr("data:", "i", EV(Id(ix)))>>, <<>>)>>,
                     <<Text(<<P(Mem(Id(it), "v"))>>), Elem("sep", <<>>, <<>>), Text(<<P(EA)>>)>>,
-                    <<Elem("v", <<>>, <<Text(<<P(Id(it)), P(Id("item")), P(Id("index"))>>)>>)>> }
+                    <<Elem("v", <<>>, <<Text(<<P(Id(it)), P(Id("item")), P(Id("index"))>>)>>)>>,
+                    (* an if-group / a template reference that is NOT the first node of the body (its declarations follow
+                       another statement of the item function) *)
+                    <<Elem("v", <<Attr("plain", "p", EV(Id(it)))>>, <<>>), If(<<[c |-> EV(Id(ix)), ch |-> <<Elem("m", <<>>, <<Text(<<P(Id(it))>>)>>)>>]>>, TRUE, <<Elem("n", <<>>, <<>>)>>)>>,
+                    <<Text(<<P(Id(ix))>>), TmplIs(SV("t"), EV(Obj(<<Named("y", Id(it))>>))), Elem("z", <<>>, <<>>)>> }
 F5 == {File1(<<For(l, "item", "index", k, b)>>) : l \in Lists, k \in Keys, b \in Bodies("item", "index")}
       \cup {File1(<<For(l, "x", "y", "", b)>>) : l \in {EV(Id("l")), EV(Id("o"))}, b \in Bodies("x", "y")}
       \cup {File1(<<For(EV(Id("l")), "x", "x", "", b)>>) : b \in Bodies("x", "x")}
@@ -221,7 +225,13 @@ ScopeShapes(body) ==
       <<For(EV(Id("l")), "x", "index", "", <<Elem("dyn-c", <<Attr("plain", "sv-x", EV(Id("x")))>>,
              <<Elem("c", <<Attr("slot:", "x", SV("index"))>>, body)>>)>>)>> }
 WxsLate == [n |-> "zz", late |-> TRUE, members |-> << <<"k", VS("Zk")>> >>]
-F6 == {FileW(<<>>, <<>>, r) : r \in ScopeShapes(ProbeAll)}
+(* a module referred to by path next to an inline one, in both orders of declaration: each name denotes ITS module, in
+   the generated code and in the printed text *)
+WxsX == [n |-> "xm", src |-> "s6", members |-> << <<"k", VS("Xk")>> >>]
+ProbeTwo == <<Text(<<S("["), P(Mem(Id("m"), "k")), S("|"), P(Mem(Id("xm"), "k")), S("|"), P(Id("x")), S("]")>>)>>
+TwoKinds == { FileW(w, <<>>, r) : w \in {<<WxsM, WxsX>>, <<WxsX, WxsM>>},
+                r \in { ProbeTwo, <<For(EV(Id("l")), "x", "m", "", ProbeTwo)>>, <<For(EV(Id("l")), "xm", "index", "", <<Elem("v", <<Attr("plain", "p", EV(Mem(Id("m"), "k")))>>, ProbeTwo)>>)>> } }
+F6 == {FileW(<<>>, <<>>, r) : r \in ScopeShapes(ProbeAll)} \cup TwoKinds
       (* a script module added after parsing, by name, through the group API: the scopes keep their meaning *)
       \cup {FileW(w, <<>>, r) : r \in ScopeShapes(ProbeAll), w \in {<<WxsLate>>, <<WxsM, WxsLate>>}}
       \cup {FileW(<<WxsM>>, <<>>, r) : r \in ScopeShapes(ProbeAll)}
@@ -294,6 +304,10 @@ SExprs == {Mem(Id("m"), "f"), Mem(Mem(Id("m"), "g"), "h"), Mem(Id("x"), "f"), Me
            Mem(Cond(Id("c"), Id("m"), Id("x")), "f"), Mem(Mem(Cond(Id("c"), Id("m"), Id("x")), "g"), "h")}
 FileS(root) == << [path |-> "a", imports |-> <<>>, wxs |-> <<WxsIn, WxsExt>>, defs |-> <<>>, root |-> root] >>
 F7 ==    {FileS(<<Elem("v", <<Attr("model:", "v", EV(e))>>, <<>>)>>) : e \in LAll \cup SExprs}
+    (* the items of a list that lives in a script module (no location of the data under model:, a script location for a handler),
+       alone and as a branch of a conditional *)
+    \cup {FileS(<<For(EV(Mem(Id("m"), "list")), "item", "index", "", <<Elem("v", <<Attr(f, "v", EV(e))>>, <<>>)>>)>>) :
+              f \in {"model:", "bind", "change:"}, e \in {Mem(Id("item"), "f"), Id("item"), Cond(Id("c"), Mem(Id("item"), "f"), Id("a"))}}
     \cup {FileS(<<Elem("v", <<Attr(f, "tap", EV(e))>>, <<>>)>>) : f \in {"bind", "catch", "capture-bind"}, e \in SExprs \cup LOk}
     \cup {FileS(<<Elem("v", <<Attr("change:", "p", EV(e))>>, <<>>)>>) : e \in SExprs \cup {Id("a"), Mem(Id("o"), "p")}}
     \cup {FileS(<<Elem("v", <<Attr("plain", n, EV(e))>>, <<>>)>>) : n \in {"bindtap", "catchtap", "ontap", "capture-bindtap", "p"},
